@@ -2,8 +2,10 @@ SPECIFICATION Spec
 CONSTANTS
   MaxLen = 3
   Alpha = {1, 2, 3}
-  WithDeadline = TRUE
-  WithFailure = TRUE
+  Alg = "lcs"
+  WithDeadline = FALSE
+  WithFailure = FALSE
   Dump = TRUE
 INVARIANTS DumpInv
+
 CHECK_DEADLOCK FALSE
